@@ -193,7 +193,7 @@ def gen_context(rng, cx, t, opts, st, depth):
     inner_st = State(in_tee=st.in_tee, after_take=st.after_take, tainted=False, no_multislot=st.no_multislot)
     inner, _ = gen_pipeline(rng, t, rng.randint(1, 3), opts, inner_st, depth - 1)
     if cx == 'group_by':
-        key = rng.choice(['mod:%d', 'kt:%d', 'ks:%d', 'kbig:%d', 'kf:%d', 'kmix:%d']) % _k(rng) if t == 'i' else 'kdig:%d' % _k(rng)
+        key = rng.choice(['mod:%d', 'kt:%d', 'ks:%d', 'kbig:%d', 'kf:%d', 'kmix:%d', 'kneg:%d', 'kmers:%d']) % _k(rng) if t == 'i' else 'kdig:%d' % _k(rng)
         node = ['group_by', key, inner]
     elif cx == 'roll':
         w, s = rng.randint(1, 4), rng.randint(1, 4)
